@@ -113,3 +113,28 @@ Theorem C07_F21_check_sum_orig_refuted :
   pe_checksum false (ChecksumProofs.f21_m 1) <> pe_checksum false (ChecksumProofs.f21_m 2).
 Proof. exact ChecksumProofs.check_sum_orig_refuted. Qed.
 Print Assumptions C07_F21_check_sum_orig_refuted.
+
+(* ---- section lookup by name (second audit: the property says "section lookup by name/RVA agrees with the table") ---- *)
+From PV.Proofs Require ByNameProofs.
+(* by_name answers the FIRST header, in table order, whose eight name bytes equal the query padded with zeros to eight
+   bytes; the name field is NUL padded, not NUL terminated - interior NULs are compared like any other byte *)
+Theorem C07_by_name : forall f m name i,
+  by_name f m name = Some i <->
+  lenN name <= IMAGE_SIZEOF_SHORT_NAME /\
+  exists k, (k < N.to_nat (h_nsec f m))%nat /\ i = N.of_nat k /\
+    ByNameProofs.name_at m (sec_table_off f m) k = pad8 name 8 /\
+    forall j, (j < k)%nat -> ByNameProofs.name_at m (sec_table_off f m) j <> pad8 name 8.
+Proof. exact ByNameProofs.by_name_correct. Qed.
+Print Assumptions C07_by_name.
+(* nothing is answered exactly when the query is longer than eight bytes or no header carries the padded name *)
+Theorem C07_by_name_none : forall f m name,
+  by_name f m name = None <->
+  (IMAGE_SIZEOF_SHORT_NAME < lenN name \/
+   forall k, (k < N.to_nat (h_nsec f m))%nat -> ByNameProofs.name_at m (sec_table_off f m) k <> pad8 name 8).
+Proof. exact ByNameProofs.by_name_none. Qed.
+Print Assumptions C07_by_name_none.
+(* the padded query: eight bytes, the bytes of the name followed by zeros *)
+Theorem C07_by_name_padding : forall n name, length (pad8 name n) = n /\
+  forall i, (i < n)%nat -> nth i (pad8 name n) 0 = nth i name 0.
+Proof. exact ByNameProofs.pad8_spec. Qed.
+Print Assumptions C07_by_name_padding.
